@@ -449,20 +449,20 @@ pub fn ks_twosample(
 
     let mut i = 0;
     let mut j = 0;
-    let mut f1 = 0.0;
-    let mut f2 = 0.0;
     let mut d_plus: f64 = 0.0;
     let mut d_minus: f64 = 0.0;
 
     for x in data_all.iter() {
         while i < n1 as usize && &data1[i] == x {
-            f1 += 1.0 / n1;
             i += 1;
         }
         while j < n2 as usize && &data2[j] == x {
-            f2 += 1.0 / n2;
             j += 1;
         }
+        // the empirical cdfs as quotients of the counts: running sums of 1/n leave a rounding
+        // residue, so that identical cdfs of samples of different sizes differed by ~1e-16
+        let f1 = i as f64 / n1;
+        let f2 = j as f64 / n2;
         d_plus = d_plus.max(f1 - f2);
         d_minus = d_minus.max(f2 - f1);
     }
